@@ -399,6 +399,74 @@ def _frac(o):
 _P_ONE = {(): _ONE}
 
 
+def _mono_content(polys):
+    """Largest monomial dividing every term of every polynomial in `polys`."""
+    common = None
+    for p in polys:
+        for m in p:
+            dm = dict(m)
+            if common is None:
+                common = dm
+            else:
+                common = {v: min(e, dm[v]) for v, e in common.items() if v in dm}
+            if not common:
+                return ()
+    return tuple(sorted(common.items())) if common else ()
+
+
+def _p_div_mono(p, mono):
+    return {m_div(m, mono): c for m, c in p.items()}
+
+
+def _uni_gcd(a, b, var):
+    """gcd of two polynomials that are univariate in `var` (Euclid over Q); dense coefficient lists."""
+    def dense(p):
+        deg = max((m[0][1] if m else 0) for m in p)
+        out = [_ZERO] * (deg + 1)
+        for m, c in p.items():
+            out[m[0][1] if m else 0] = c
+        return out
+    def trim(x):
+        while x and x[-1] == 0:
+            x.pop()
+        return x
+    x, y = trim(dense(a)), trim(dense(b))
+    while y:
+        # x mod y
+        r = list(x)
+        while len(r) >= len(y) and r:
+            k = r[-1] / y[-1]
+            sh = len(r) - len(y)
+            for i, c in enumerate(y):
+                r[sh + i] -= k * c
+            trim(r)
+        x, y = y, r
+    if len(x) <= 1:
+        return None
+    lead = x[-1]
+    g = {}
+    for i, c in enumerate(x):
+        if c != 0:
+            g[((var, i),) if i else ()] = c / lead
+    return g
+
+
+def _cancel_common(n, d):
+    mono = _mono_content([n, d])
+    if mono:
+        n, d = _p_div_mono(n, mono), _p_div_mono(d, mono)
+    vs = p_vars(n) | p_vars(d)
+    if len(vs) == 1 and not p_is_const(n) and not p_is_const(d):
+        (var,) = vs
+        if p_deg(n) <= 12 and p_deg(d) <= 12:
+            g = _uni_gcd(n, d, var)
+            if g is not None:
+                qn, qd = p_divexact(n, g), p_divexact(d, g)
+                if qn is not None and qd is not None:
+                    n, d = qn, qd
+    return n, d
+
+
 class SymReal:
     """Rational function num/den over exact polynomials; den stays 1 whenever division is exact."""
 
@@ -433,12 +501,20 @@ class SymReal:
 
     @staticmethod
     def mk(n, d):
+        if not p_is_const(d) and n:
+            n, d = _cancel_common(n, d)
         if p_is_const(d):
             c = p_cval(d)
             return SymReal(n if c == 1 else p_scale(n, 1 / c))
         q = p_divexact(n, d)
         if q is not None:
             return SymReal(q)
+        if n:
+            q = p_divexact(d, n)          # n | d  ->  1 / (d/n)
+            if q is not None:
+                if p_is_const(q):
+                    return SymReal(p_const(1 / p_cval(q)))
+                return SymReal(_P_ONE, q)
         return SymReal(n, d)
 
     def __add__(s, o):
